@@ -219,7 +219,16 @@ class Engine:
                     return self.sconcat(StrV(t=a.t.arg(0)), StrV(c=s + b.c))
         ta, tb = self.sterm(a), self.sterm(b)
         t = sconcat(ta, tb)
-        self.ax(('cc', t.get_id()), slen(t) == slen(ta) + slen(tb), z3.ULE(slen(ta), slen(t)), z3.ULE(slen(tb), slen(t)))
+        key = ('cc', t.get_id())
+        if key not in self.P.axdone:
+            self.ax(key, slen(t) == slen(ta) + slen(tb), z3.ULE(slen(ta), slen(t)), z3.ULE(slen(tb), slen(t)))
+            # cancellation instances: concatenations whose heads have the same known length are equal only part by part
+            kl = self.known_len(ta)
+            if kl is not None:
+                lst = self.P.g.setdefault('concats', {}).setdefault(kl, [])
+                for (t2, a2, b2) in lst[-40:]:
+                    self.P.solver.add(z3.Implies(t == t2, z3.And(ta == a2, tb == b2)))
+                lst.append((t, ta, tb))
         return StrV(t=t)
     def ssub(self, a, lo, hi):
         """a[lo:hi]; bounds already checked by the caller"""
@@ -238,7 +247,9 @@ class Engine:
         self.P.g.setdefault('subs', {}).setdefault(ta.get_id(), []).append((self.bv(lo), self.bv(hi), t))
         self.ax(('sub', t.get_id()), slen(t) == self.bv(hi) - self.bv(lo),
                 z3.Implies(z3.And(self.bv(lo) == 0, self.bv(hi) == slen(ta)), t == ta))
+        if self.ssub_hook is not None: self.ssub_hook(self, t, ta, cl, ch)
         return StrV(t=t)
+    ssub_hook = None
     def tostr(self, term):
         for s, (lt, _) in self.lit_tab.items():
             if lt.eq(term): return StrV(c=s)
